@@ -198,6 +198,20 @@ impl Subj {
             Subj::Stride(_) => "stride",
         }
     }
+    /// positional jumps of the iterator, rendered as the sequence they should reproduce: for every start p
+    /// (up to 12) nth(p) followed by the rest must be items[p..]; likewise skip(p), last(), count()
+    fn iter_jumps(&self, len: usize) -> Value {
+        let all: Vec<usize> = (0..len).map(|i| self.index(i)).collect();
+        for p in 0..=len.min(12) {
+            for how in 0..3 {
+                let (w, _) = self.iter_window(p, len + 2, how);
+                if w != all[p.min(len)..] {
+                    return json!(format!("from {p} (how {how}) the iterator yields {:?}", w));
+                }
+            }
+        }
+        json!("ok")
+    }
     /// Everything a caller can see, as JSON (the projection compared with the spec's `Obs`).
     pub fn observe(&self) -> Value {
         let len = self.len();
@@ -216,6 +230,7 @@ impl Subj {
             "used": used,
             "cap": heap.iter().map(|p| p.1).sum::<usize>(),
             "pairs_ok": heap.iter().all(|(u, c)| u <= c),
+            "iter_jumps": self.iter_jumps(len),
         })
     }
 }
@@ -276,10 +291,127 @@ fn signature(kind: &str, why: &str, path: &Value) -> String {
     format!("{kind}:{why}{}", if has_big_stride { ":large-value" } else { "" })
 }
 
-/// Replay one ICMC edge and judge it for `prop` (C05, C19, C16, C08, C09).
+/// The same ICMC histories taken THROUGH regions whose inner index is the value itself, so that every
+/// enumerated sequence over the transition-covering alphabet (incl. 2^63, usize::MAX) reaches the index
+/// container the way users reach it: `SliceRegion<MirrorRegion<usize>, S>` (push of a one-element slice per
+/// value, one slice per extend batch) and `FlatStack<MirrorRegion<usize>, S>` (copy / extend).
+/// Judged as C01 (a push may not panic and reads back), C02 (earlier items unchanged) and C03 (the stack is
+/// the sequence of copies).
+fn through_region<S>(path: &[Value], why: &mut Vec<String>)
+where
+    S: IndexContainer<usize> + Clone + serde::Serialize + serde::de::DeserializeOwned + 'static,
+{
+    use flatcontainer::{FlatStack, MirrorRegion, Push, Region, SliceRegion};
+    let mut r = SliceRegion::<MirrorRegion<usize>, S>::default();
+    let mut st = FlatStack::<MirrorRegion<usize>, S>::default();
+    let mut issued: Vec<((usize, usize), Vec<usize>)> = vec![];
+    let mut copied: Vec<usize> = vec![];
+    for (i, op) in path.iter().enumerate() {
+        let name = op["op"].as_str().unwrap_or("");
+        let res = guarded(|| -> Result<(), String> {
+            match name {
+                "push" | "extend" => {
+                    let xs: Vec<usize> = if name == "push" { vec![word(&op["x"])] } else { op["xs"].as_array().map(|a| a.iter().map(word).collect()).unwrap_or_default() };
+                    let idx = r.push(xs.as_slice());
+                    issued.push((idx, xs.clone()));
+                    if name == "push" {
+                        st.copy(xs[0]);
+                    } else {
+                        std::iter::Extend::extend(&mut st, xs.clone());
+                    }
+                    std::iter::Extend::extend(&mut copied, xs);
+                }
+                "clear" => {
+                    r.clear();
+                    st.clear();
+                    issued.clear();
+                    copied.clear();
+                }
+                "clone" => {
+                    r = r.clone();
+                    st = st.clone();
+                }
+                "serde" => {
+                    let t = serde_json::to_string(&r).map_err(|e| e.to_string())?;
+                    r = serde_json::from_str(&t).map_err(|e| e.to_string())?;
+                    let t = serde_json::to_string(&st).map_err(|e| e.to_string())?;
+                    st = serde_json::from_str(&t).map_err(|e| e.to_string())?;
+                }
+                _ => {}
+            }
+            Ok(())
+        });
+        match res {
+            Err(m) => {
+                why.push(format!("through-region-panic-at-step-{i}:{}", m.chars().take(120).collect::<String>()));
+                return;
+            }
+            Ok(Err(m)) => {
+                why.push(format!("through-region-serde-failed:{m}"));
+                return;
+            }
+            Ok(Ok(())) => {}
+        }
+        // every issued index reads back its slice; the stack is the sequence of copies
+        let ok = guarded(|| {
+            for (idx, xs) in &issued {
+                let item = r.index(*idx);
+                let got: Vec<usize> = item.iter().collect();
+                let by_get: Vec<usize> = (0..item.len()).map(|k| item.get(k)).collect();
+                if &got != xs || &by_get != xs {
+                    return Some(format!("through-region-read-differs:step {i}: pushed {:?}, read {:?} / {:?}", xs, got, by_get));
+                }
+            }
+            let all: Vec<usize> = st.iter().collect();
+            let by_get: Vec<usize> = (0..st.len()).map(|k| st.get(k)).collect();
+            if st.len() != copied.len() || all != copied || by_get != copied || st.is_empty() != copied.is_empty() {
+                return Some(format!("through-region-stack-differs:step {i}: copied {:?}, iter {:?}, get {:?}", copied, all, by_get));
+            }
+            None
+        });
+        match ok {
+            Err(m) => {
+                why.push(format!("through-region-read-panicked:step {i}: {}", m.chars().take(120).collect::<String>()));
+                return;
+            }
+            Ok(Some(w)) => {
+                why.push(w);
+                return;
+            }
+            Ok(None) => {}
+        }
+    }
+}
+
+/// Replay one ICMC edge and judge it for `prop` (C05, C19, C16, C08, C09; C01/C02/C03 through regions).
 pub fn replay_edge(edge: &Value, prop: &str, rep: &mut Report) {
     let kind = edge["kind"].as_str().unwrap();
     let path = edge["path"].as_array().unwrap();
+    if matches!(prop, "C01" | "C02" | "C03") {
+        let mut why: Vec<String> = vec![];
+        match kind {
+            "opt" => through_region::<IndexOptimized>(path, &mut why),
+            "list" => through_region::<List>(path, &mut why),
+            "vec" => through_region::<Vec<usize>>(path, &mut why),
+            _ => {
+                rep.case(kind, false);
+                return;
+            }
+        }
+        rep.case(kind, true);
+        rep.sample(edge);
+        if !why.is_empty() {
+            rep.violation(json!({
+                "sig": signature(kind, why[0].split(':').next().unwrap_or(""), &edge["path"]),
+                "why": why.join(","),
+                "kind": kind,
+                "path": edge["path"],
+                "expected": {"res": edge["res"], "obs": edge["obs"]},
+                "observed": {"why": why},
+            }));
+        }
+        return;
+    }
     let mut s = Subj::new(kind);
     let mut last = json!(null);
     let mut panicked: Option<(usize, String)> = None;
@@ -338,6 +470,9 @@ pub fn replay_edge(edge: &Value, prop: &str, rep: &mut Report) {
                         }
                         if o["iter"] != exp["items"] || o["iter_clone_a"] != exp["items"] || o["iter_clone_b"] != exp["items"] {
                             why.push("iter".into())
+                        }
+                        if o["iter_jumps"] != json!("ok") {
+                            why.push("iter-jump".into())
                         }
                         if kind == "stride" && path.last().map(|o| o["op"] == "push").unwrap_or(false) {
                             if last["ok"] != edge["res"]["ok"] {
